@@ -22,6 +22,7 @@ REQUIRED_COUNTERS = ["scaler_calls", "scaler_outputs_checked", "ema_calls", "war
 MIN_NONTRIVIAL = {"quick": 100, "thorough": 1000}
 WORKERS = {"quick": 8, "thorough": 16}
 BUDGET_S = {"quick": 300, "thorough": 1500}
+THOROUGH_ROUNDS = 4
 
 
 def cases(tier, seed):
